@@ -360,4 +360,31 @@ Proof.
   - rewrite b_tild_len; [lia|]. eapply Forall_impl; [|exact H]. intros l (_ & E & _). exact E.
 Qed.
 
+(* ---------- samplers that outlive an in-place re-assignment ---------- *)
+Lemma M_adj_liks_same_noise captured live : Forall2 (same_noise R) captured live -> forall y acc,
+  M_adj_liks R r0 radd rmul live y acc = M_adj_liks R r0 radd rmul captured y acc.
+Proof.
+  intros H; induction H as [|c l cs ls (E1 & E2 & E3) H IH]; intros y acc; simpl; [reflexivity|].
+  rewrite E1, E2, E3. apply IH.
+Qed.
+
+(* the repaired reading (flag 2 from the captured list): the stale sampler's operator pair is adjoint, whatever was re-assigned *)
+Theorem stale_adjoint_captured n captured live pr x y :
+  Forall (lik_wf n) captured -> wf_mat n (p_L pr) -> length x = n ->
+  Dot (stale_M_fwd R r0 radd rmul captured pr x) y
+  = Dot x (stale_M_adj R r0 radd rmul Flag2Captured n captured live pr y).
+Proof. intros. unfold stale_M_fwd, stale_M_adj. simpl. apply M_adjoint; assumption. Qed.
+
+(* the code as it stands (flag 2 reads the distribution again): adjoint as long as no NOISE parameter was re-assigned
+   (prior, data values and anything else may have been) *)
+Theorem stale_adjoint_live_guarded n captured live pr x y :
+  Forall (lik_wf n) captured -> wf_mat n (p_L pr) -> length x = n -> Forall2 (same_noise R) captured live ->
+  Dot (stale_M_fwd R r0 radd rmul captured pr x) y
+  = Dot x (stale_M_adj R r0 radd rmul Flag2Live n captured live pr y).
+Proof.
+  intros H HP Hx HS. unfold stale_M_fwd, stale_M_adj. simpl.
+  rewrite (M_adjoint n captured pr x y H HP Hx). unfold M_adj.
+  rewrite (M_adj_liks_same_noise captured live HS). reflexivity.
+Qed.
+
 End Lin.
